@@ -69,6 +69,7 @@ RejectClass(toks) == IF MultiWordInInstList(toks) # {} THEN "MultiWordBasicTypeI
 Clause(ob) ==
   LET toks == ob.toks IN
   IF ob.op = "rejected" THEN "wellformed-input-rejected/" \o RejectClass(toks)
+  ELSE IF ob.op = "unclose" THEN "accepted-unterminated-include"      \* (whatever tree came out: the '>' is missing)
   ELSE IF ob.op # "" /\ ~Regrouped(ob) THEN "harness-regrouping-wrong"
   ELSE IF ~Balanced(toks) THEN "accepted-unbalanced-input"
   ELSE IF Explains(ob.tree, toks) THEN ""
